@@ -56,9 +56,10 @@ def podAt (p : Pod) (e : TraceEv) : PodSpecM :=
   { sp with aff := { required := sp.aff.required.drop k, preferred := sp.aff.preferred.drop kp }, tolerations := tol }
 
 open Karp.Sched in
-def replayWith (daemonPNS : Bool) (s : Scenario) (trace : List TraceEv) : Option String :=
+def replayWith (daemonPNS : Bool) (s : Scenario) (trace : List TraceEv) (absent : Absent := []) : Option String :=
   let init : List (String × ExNode) := s.nodes.filterMap (fun n =>
-    if n.deleting then none else (Karp.Provision.viewNodeWith daemonPNS s n).map (fun ex => (n.name, ex)))
+    if n.deleting then none else
+      (Karp.Provision.viewNodeAbs daemonPNS ((absent.filter (·.1 == n.name)).map (·.2)) s n).map (fun ex => (n.name, ex)))
   let rec go (st : List (String × ExNode)) : List TraceEv → Option String
     | [] => none
     | e :: rest =>
@@ -66,6 +67,8 @@ def replayWith (daemonPNS : Bool) (s : Scenario) (trace : List TraceEv) : Option
       | none => some s!"trace names unknown pod {e.ev.pod}"
       | some p =>
         let pd := podDOf s.ignorePreferences (podAt p e)
+        let alts := Karp.Provision.volumeAlts (Karp.Provision.podVolumeTerms s p)
+        let existingCanAdd := fun (ex : ExNode) (pd : PodD) => Karp.Provision.existingCanAddV ex pd alts
         match e.ev.kind with
         | .existing =>
           match st.lookup e.ev.target with
@@ -83,10 +86,10 @@ def replayWith (daemonPNS : Bool) (s : Scenario) (trace : List TraceEv) : Option
 
 /-- the daemon pods carry the PreferNoSchedule toleration iff some NodeClaimTemplate had instance types left (a side
     effect of building the overhead groups): the model allows either, consistently for the whole pass -/
-def replay (s : Scenario) (trace : List TraceEv) : Option String :=
-  match replayWith true s trace with
+def replay (s : Scenario) (trace : List TraceEv) (absent : Absent := []) : Option String :=
+  match replayWith true s trace absent with
   | none => none
-  | some w => if (replayWith false s trace).isNone then none else some w
+  | some w => if (replayWith false s trace absent).isNone then none else some w
 
 /-! ### the model's view of the in-flight nodes of a history (`allowed`) -/
 
@@ -150,12 +153,12 @@ structure Verdict where
 
 def Verdict.merge (a b : Verdict) : Verdict := { spec := a.spec <|> b.spec, model := a.model <|> b.model }
 
-def judgePass (s : Scenario) (p : PassObs) : Verdict :=
+def judgePass (s : Scenario) (p : PassObs) (absent : Absent := []) : Verdict :=
   if p.err != "" then {} else
   let cands := scenarioCandidates s p.out ++ (p.trace.filterMap (·.ev.claim)).flatMap (fun c => c.reqs.flatMap (fun (_, r) => r.values))
   let cands := cands.eraseDups
-  let specV := (traceConsistent p.out p.trace) <|> passOK s cands (p.trace.map (·.ev))
-  { spec := specV.map (fun w => s!"{w} (pass at stage {p.stage})"), model := (replay s p.trace).map (fun w => s!"{w} (pass at stage {p.stage})") }
+  let specV := (traceConsistent p.out p.trace) <|> passOK s cands (p.trace.map (·.ev)) absent
+  { spec := specV.map (fun w => s!"{w} (pass at stage {p.stage})"), model := (replay s p.trace absent).map (fun w => s!"{w} (pass at stage {p.stage})") }
 
 def toResp (v : Verdict) (dflt : String) : Resp :=
   match v.spec with
@@ -168,6 +171,17 @@ def opPass (inp impl : Json) : Except String Resp := do
   if (fldOpt impl "panic").isSome then return { allowed := some false, spec := some false, why := "the scheduler panicked" }
   let p ← passObs impl
   pure (toResp (judgePass s p) "pass")
+
+/-- `c04.room`: one real pass on a cluster whose Node objects may lack well-known labels, pods with volumes -/
+def opRoom (inp impl : Json) : Except String Resp := do
+  let s ← scenario (← fld inp "scenario")
+  let absent ← listF (fun j => do let a ← asArr j; match a with | [n, k] => pure ((← asStr n), (← asStr k)) | _ => throw "absent: [node, key] pair expected") inp "absent"
+  -- only nodes Karpenter does not manage may lack well-known labels (a managed node gets them from its NodeClaim)
+  if absent.any (fun (n, _) => match s.node? n with | some nd => nd.managed | none => true) then
+    throw "absent label on a managed or unknown node"
+  if (fldOpt impl "panic").isSome then return { allowed := some false, spec := some false, why := "the scheduler panicked" }
+  let p ← passObs impl
+  pure (toResp (judgePass s p absent) "room")
 
 /-- `c04.history`: pass 1, creation, the gate, adversarial launch, and pass 2 at every lifecycle stage -/
 def opHistory (strict : Bool) (inp impl : Json) : Except String Resp := do
@@ -505,6 +519,7 @@ def handle : Handler := fun op inp impl =>
   | "c04.synced" => opSynced inp impl
   | "c04.account" => opAccount inp impl
   | "c04.churn" => opChurn inp impl
+  | "c04.room" => opRoom inp impl
   | _ => .error s!"unknown op {op}"
 
 end Karp.Driver.C04
